@@ -25,8 +25,10 @@ EXTENDS Integers, Sequences, FiniteSets, TLC
 
 CONSTANTS NCH,          \* channels of a probe (384)
           NB,           \* channels of the abstract data-flow / call-tree models (6)
-          Variant       \* "fixed" = group recursion forwards the settings (after the three fix: commits for car /
+          Variant,      \* "fixed" = group recursion forwards the settings (after the three fix: commits for car /
                         \* kfilt / fk, DESIGN 8 F6), "orig" = the recursion as it was before them
+          NGRP          \* group names of the call-tree model: a collection maps each channel to one of 0..NGRP-1 (the code
+                        \* takes any values - sparse, negative, float, strings, a list; the harness spells them so)
 
 Gens == {"NP1", "NP2", "NPultra"}
 
@@ -192,7 +194,7 @@ RowsOf(col, c) == {i \in DOMAIN col : col[i] = c}
 
 InitC == /\ fn \in {"car", "kfilt", "fk"}
          /\ settings \in SettingsOf(fn)
-         /\ collection \in [Chan -> 0..2] \cup {<<>>}
+         /\ collection \in [Chan -> 0..(NGRP - 1)] \cup {<<>>}
          /\ todo = (IF collection = <<>> THEN {} ELSE Groups(collection))
          /\ children = <<>>
 
